@@ -49,6 +49,18 @@ class KSession:
 
 def judge(rep, res, concretise=None, expect_covers=True, session=None):
     """Turn harness results into obligations. concretise(name, hres, ces) -> list of (key, desc, case, observed) reproduced natively."""
+    pre = {}
+    failing = [n for n in sorted(res) if res[n].status == "FAILED" and not (res[n].unwind_fail and all("unwinding" in c["desc"] for c in res[n].failed_checks))]
+    if concretise and session and len(failing) > 1:
+        import concurrent.futures as cf
+
+        def _ces(n):
+            try:
+                return n, session.ces(n)
+            except Exception:  # noqa
+                return n, []
+        with cf.ThreadPoolExecutor(max_workers=min(6, len(failing))) as ex:
+            pre = dict(ex.map(_ces, failing))
     for name in sorted(res):
         r = res[name]
         rep.queries += 1
@@ -68,7 +80,7 @@ def judge(rep, res, concretise=None, expect_covers=True, session=None):
             ces = []
             if concretise:
                 try:
-                    ces = session.ces(name) if session else []
+                    ces = pre[name] if name in pre else (session.ces(name) if session else [])
                 except Exception as e:  # noqa
                     ces = []
                 repro = concretise(name, r, ces) or []
